@@ -35,6 +35,8 @@ Fixpoint loop_cons (x : lvar) (s : stmt) : option ctab :=
   | SBytes f idx _ | SBytesVec f idx | SNiString f idx _ => one (WBlob f) idx
   | SResize f idx _ | SVecSize f idx _ _ => one (WSize f) idx
   | SFor _ _ b => loop_cons x b
+  | SRefArrHead fsize _ frefs fidx idx _ =>
+    match pos_of x idx with Some p => Some [(WInt fsize, (x, p)); (WSize frefs, (x, p)); (WInt fidx, (x, p))] | None => None end
   | _ => None
   end.
 
@@ -46,6 +48,15 @@ Fixpoint assigned (s : stmt) : list lvar :=
   | SFor x _ b => x :: assigned b
   | SRefArrHead _ _ _ _ _ _ | SCleanRefs _ _ _ _ _ => [0]
   | _ => []
+  end.
+
+(* is "a; b" a whole reference array  head(fsize,fkeep,frefs,fidx,idx,w); for j < size(frefs,idx): ref fidx[idx,j] ? *)
+Definition is_refarr (a b : stmt) : option (name * name * name * name * list iexpr * lvar) :=
+  match a, b with
+  | SRefArrHead fsize fkeep frefs fidx idx w, SFor j (ESize frefs' idx') (SRef fidx' idx'') =>
+    if (frefs' =? frefs) && idx_eqb idx' idx && (fidx' =? fidx) && idx_eqb idx'' (idx ++ [ILocal j])
+    then Some (fsize, fkeep, frefs, fidx, idx, j) else None
+  | _, _ => None
   end.
 
 Section Chk.
@@ -72,7 +83,17 @@ Section Chk.
   Fixpoint kchk (v : version) (P : ctab) (s : stmt) (C : list wn) (L : list lvar) : option (list wn * list lvar) :=
     match s with
     | SSkip => Some (C, L)
-    | SSeq a b => match kchk v P a C L with Some (C1, L1) => kchk v P b C1 L1 | None => None end
+    | SSeq a b =>
+      match is_refarr a b with
+      | Some (fsize, fkeep, frefs, fidx, idx, j) =>
+        (* a whole reference array: CleanInvalidRefs + count, then the element loop (proved as one unit) *)
+        if idx_locals_ok L idx && negb (lmem 0 L) && negb (lmem j L) && free_var P 0 && free_var P j
+           && writable Wtot C (WInt fsize) && writable Wtot C (WSize frefs) && writable Wtot C (WInt fidx) && negb (fsize =? fidx)
+           && idx_matches P (WInt fsize) idx && idx_matches P (WSize frefs) idx && idx_matches P (WInt fidx) (idx ++ [ILocal j])
+           && readable Wtot C (WInt fkeep) && idx_matches P (WInt fkeep) idx
+        then Some (WInt fidx :: WSize frefs :: WInt fsize :: C, L) else None
+      | None => match kchk v P a C L with Some (C1, L1) => kchk v P b C1 L1 | None => None end
+      end
     | SIf c t e =>
       match ver_only v c with
       | Some z => if Z.eqb z 0 then kchk v P e C L else kchk v P t C L
@@ -116,7 +137,7 @@ Section Chk.
         | None => None
         end
       else None
-    | _ => None          (* SRefArrHead, SCleanRefs, SOpaque: not covered yet *)
+    | _ => None          (* a bare SRefArrHead, SCleanRefs, SOpaque: not covered *)
     end.
 End Chk.
 
